@@ -3,26 +3,22 @@
 base and asks for behaviour-preserving rewrites of it - nothing about the checker."""
 import sys
 areas = {
- 'R41': ("internal/label (target_label.go, target_pattern.go): the label/pattern parsers, the String() printers and TargetPattern.Matches",
-         "e.g. split Matches into package/name helpers; write the conditions as a switch or with boolean locals; use strings.CutPrefix or a length-and-byte check for the `prefix/` boundary; build strings with strings.Builder or fmt.Sprintf; use strings.Cut / IndexByte in the parsers; hoist shared parsing into a helper used by both parsers"),
- 'R42': ("internal/selection (selector.go, build_selection.go): the Selector's filter methods (patterns, tags, exclude-tags, target type, platforms) and the selection closure",
-         "e.g. extract `matchesAnyPattern(label)`; early returns vs. a single boolean expression; range loops vs. slices.ContainsFunc; precomputing tag sets; reordering independent conjuncts; splitting nodeMatchesFilters per node kind"),
- 'R43': ("internal/hashing (hash_files.go, hash_target.go, target_hasher.go, hash_strings.go, get_hasher.go): file hashing, the change hash of a target, the TargetHasher",
-         "e.g. split GetTargetChangeHash into helpers; let HashFiles use a helper that opens/copies/closes one file with defer; copy the file list before sorting; pass the hasher as a parameter; replace fmt.Sprintf joins by equivalent concatenation; io.CopyBuffer with a reused buffer. The produced hash VALUES must stay byte-identical"),
- 'R44': ("internal/execution (execute_target.go, output_checks.go, execute.go): running a target's command and its output checks, the cache gate in getTaskFunc, executeTarget/OnTargetComplete",
-         "e.g. extract the construction of the exec.Cmd into a helper; compute boolean conditions into named locals before branching; early-return restructurings of the cache-hit decision; move logging; split OnTargetComplete; helper for the timeout context"),
- 'R45': ("internal/output/handlers (dir_output_handler.go, file_output_handler.go): writing and restoring file and directory outputs, the 'already present locally, skip the restore' decisions",
-         "e.g. extract `isUpToDate(...)` helpers for the skip decision; restructure Load into phases (load record, compare, clear, restore); named result variables; errgroup vs. WaitGroup where equivalent; helper for mode computation"),
- 'R46': ("internal/caching (cas.go, target_result_cache.go, taint_cache.go) and internal/caching/backends (fs.go, remote_wrapper.go): the content store, the fs backend's temp-file + rename write, the remote wrapper",
-         "e.g. extract the staged write into helpers; defer-based cleanup; early returns; merging/splitting Exists+Set logic without changing which calls happen in which order or which errors are returned"),
- 'R47': ("internal/loading (starlark_loader.go, package_loader.go, loader helpers): the Starlark loader, its per-file module cache and load context, package enrichment",
-         "e.g. construct the module load context in a `newModuleLoadContext()` helper; wrap the module cache map in a small type with get/put methods while it stays one cache per BUILD file; build the predeclared dict in a helper; restructure loadModule's cycle detection with defer"),
- 'R48': ("internal/dag (graph.go, graph_walker.go) and internal/analysis (output_conflicts.go, target_constraints.go): graph traversals (GetAncestors/GetDescendants/collectReachable, FindCycle), the walker's completion handling, output-conflict detection",
-         "e.g. recursive -> iterative traversal with an explicit stack (keeping the visited set); preallocation; memoising COMPLETE per-node results where provably equivalent; splitting onComplete; boolean locals for readiness conditions; helper predicates returning bool"),
- 'R49': ("internal/locking (workspace_locker.go), internal/worker, internal/cmd/cmds (build.go, taint.go, clean.go, deps/rdeps/owners/list commands)",
-         "e.g. extract the stale-lock classification into helpers returning bool/enums; restructure the acquire loop; early returns in cobra Run functions; share label-printing helpers between query commands; named boolean conditions"),
- 'R50': ("anywhere in internal/: pick functions that return bool or (value, bool) and decide something with several conditions (filters, cache-hit decisions, containment tests, staleness tests, platform matching)",
-         "rewrite them between equivalent forms: chains of early returns <-> one boolean expression with && / ||; `ok := a && b; if !ok { return false }`; switch-true forms; extracting a sub-condition into a helper that returns bool; De Morgan rewrites; returning a comparison directly instead of if/else"),
+ 'R51': ("locking and mutual exclusion inside internal/execution (execute.go: LoadDependencyOutputs, the executor's per-target state), internal/maps (mutex_map.go), internal/hashing/target_hasher.go, internal/output/registry.go",
+         "e.g. extract lock/unlock pairs into `withLock(key, func() error)` helpers; replace defer-unlock by explicit unlock on each exit or vice versa where provably equivalent; narrow or merge critical sections without changing what they protect; per-iteration closures `func() { lock; defer unlock; ... }()` inside loops"),
+ 'R52': ("internal/worker (task_worker_pool.go, progress_tracker.go) and the Pkl loader's panic handling (internal/loading/pkl_loader.go)",
+         "e.g. extract the worker loop body; restructure enqueue's closed-pool handling (keeping its recover semantics exactly); named results vs. explicit returns; helper `recoverAsError(&err)` used by deferred functions; channels vs. condition variables only where equivalent"),
+ 'R53': ("internal/caching/backends (s3.go, gcs.go, fs.go, remote_wrapper.go): how content streams are copied, closed and errors reported",
+         "e.g. helper `copyAndClose(dst, src) error`; io.CopyBuffer with a pooled buffer; explicit io.EOF handling loops equivalent to io.Copy; wrapping errors at one place; early returns"),
+ 'R54': ("process execution plumbing: internal/execution/execute_target.go (runTargetCommand, getCommand) and internal/cmd/cmds/run.go (newBinaryRunCommand, runTargetBinaries)",
+         "e.g. extract `newShellCommand(ctx, script, dir, env)`; build the environment in a helper; set Stdout/Stderr through an `attachOutput(cmd, w)` helper; move the WaitDelay constant; table-driven env construction. Behaviour under cancellation and timeouts must be identical"),
+ 'R55': ("internal/output/handlers/dir_output_handler.go: Write, writeDirectoryRecursive, uploadFiles, getSortedChildren (building the directory tree record and uploading file blobs)",
+         "e.g. collect entries into typed slices then build nodes; explicit sort helpers; split the recursive function; a worker-pool helper for uploads that keeps result ORDER and error semantics; preallocation. The tree digest must stay byte-identical"),
+ 'R56': ("internal/loading/enrich_package.go (getEnrichedPackage, resolveInputs, exclusion handling) and internal/loading/load.go",
+         "e.g. split resolveInputs into expand/exclude phases; use a set type for exclusions; slices.DeleteFunc instead of a filter loop; helper predicates `isGlobPattern`, `isExcluded`; early returns"),
+ 'R57': ("the BUILD file loaders' value conversion: internal/loading/starlark_loader.go (starlark value -> Go), makefile_loader.go (annotation parsing), json/yaml loaders, dto.go",
+         "e.g. table-driven field conversion; generic helpers `stringList(v)`, `stringMap(v)`; consolidating error wrapping; switch on starlark types; strings.Cut based parsing. The loaded targets must be identical for every input, including error texts"),
+ 'R58': ("internal/caching (taint_cache.go, target_cache.go, cas.go) and their use in internal/execution/execute.go and internal/cmd/cmds/taint.go",
+         "e.g. key helper functions; early returns; a small `resultStore` interface used by the executor; moving the taint clear into a helper that keeps its position relative to the completion; consolidating logging"),
 }
 for g, (area, ideas) in areas.items():
     txt = f"""# Task {g}
